@@ -431,7 +431,15 @@ class AtomicSaver:
             try:
                 os.chmod(self.part_path, file_perms)
             except OSError:
-                self.part_file.close()
+                try:
+                    self.part_file.close()
+                except Exception:
+                    pass  # avoid masking original error
+                if self.rm_part_on_exc:
+                    try:
+                        os.unlink(self.part_path)
+                    except Exception:
+                        pass  # avoid masking original error
                 raise
         return
 
@@ -465,10 +473,24 @@ class AtomicSaver:
 
     def __exit__(self, exc_type, exc_val, exc_tb):
         if self.part_file:
-            # Ensure data is flushed and synced to disk before closing
-            self.part_file.flush()
-            os.fsync(self.part_file.fileno())
-            self.part_file.close()
+            try:
+                # Ensure data is flushed and synced to disk before closing
+                self.part_file.flush()
+                os.fsync(self.part_file.fileno())
+                self.part_file.close()
+            except Exception:
+                # e.g., disk full: the part file is incomplete, so it
+                # must be neither moved into place nor left behind
+                try:
+                    self.part_file.close()
+                except Exception:
+                    pass
+                if self.rm_part_on_exc:
+                    try:
+                        os.unlink(self.part_path)
+                    except Exception:
+                        pass  # avoid masking original error
+                raise
         if exc_type:
             if self.rm_part_on_exc:
                 try:
